@@ -717,7 +717,10 @@ def mpi_atan2(y, x, prec):
     if ya == yb == fzero:
         if mpf_ge(xa, fzero):
             return mpi_zero
-        return mpi_pi(prec)
+        if mpf_lt(xb, fzero):
+            return mpi_pi(prec)
+        # Both signs of x (and possibly x = 0): angles 0 and pi
+        return fzero, mpf_pi(prec, round_ceiling)
     # Right half-plane
     if mpf_ge(xa, fzero):
         if mpf_ge(ya, fzero):
@@ -735,8 +738,9 @@ def mpi_atan2(y, x, prec):
             a = mpf_atan2(yb, xb, prec, round_floor)
         else:
             a = mpf_atan2(ya, xb, prec, round_floor)
-    # Lower half-plane
-    elif mpf_le(yb, fzero):
+    # Lower half-plane (not touching the negative real axis, where
+    # the angle jumps from -pi to +pi)
+    elif mpf_le(yb, fzero) and not (yb == fzero and mpf_lt(xa, fzero)):
         a = mpf_atan2(yb, xa, prec, round_floor)
         if mpf_le(xb, fzero):
             b = mpf_atan2(ya, xb, prec, round_ceiling)
